@@ -30,6 +30,23 @@ Idioms (fixed shape, fixed translation; anything else with these callees is refu
   NAME = ccp.ac_voltage_source(id=x.id, nodes=(x.nodes[0], x.nodes[1]), w=<w parameter>, phi=FP.phase(N), V=FP.amplitude(N), R=real)
   return ac_voltage_source(NAME, <w parameter>, <w_resolution parameter>)           (and the _current_ / I / G variant)
          FP: the fourier_series result whose amplitude key is the V / I keyword; N: an np.round result.
+Numeric helper functions (added for refactorings that factor a test / an arithmetic expression out of the translators)
+  A module function that is NOT a value of the `transformers` table is a helper.  It gets no definition of its own: every
+  call is INLINED at the call site (call by value: the arguments are translated first, in source order, in the caller's
+  scope; then the body is translated with each parameter standing for its argument's Coq term; the helper's locals become
+  pure `let h<k>_<name> := ..` bindings under fresh names, so nothing of the caller is captured).  Accepted helper:
+    def h(P1 [: ann], ..., Pn [: ann]) [-> ann]:      no defaults, no */** parameters, no decorator, n >= 1
+        NAME = <real | int expression>                 (zero or more; not a parameter, not rebound to another kind)
+        return <real | int | bool expression>   |   return <real|int expr>, <real|int expr>[, ...]
+    whose expressions are those of the table above restricted to the kinds real / int / bool (no component, so no
+    float(x.value[..]), no elm./ntw./ccp. call, no idiom), and which does not call a helper.  A division a/P inside a helper is
+    accepted only when the argument passed for P is a name known non-zero in the caller (same rule as above).
+  Accepted calls, from a translator function only, all arguments positional, as many as parameters, each of kind real / int:
+    h(a1, ..., an)                         as an expression of the kind the helper returns (e.g. `if h(..):`, `NAME = h(..)`)
+    NAME1, NAME2[, ...] = h(a1, ..., an)    for a helper returning a tuple of that many components (distinct names; a
+                                           target may not occur in a later component's term)
+  The helper name must be bound once at module level (one def, no import / alias assignment of that name) and must not be
+  shadowed by a parameter of the caller.  A helper that no translator calls is refused (it would get no meaning).
 The signatures of the elements.py functions used and the field order of network.Branch are checked against the source."""
 import ast
 import os
@@ -80,8 +97,11 @@ class Var:
 class Fn:
     """translation state of one Python function"""
 
-    def __init__(self, f, path, module_funcs):
+    def __init__(self, f, path, module_funcs, helpers=None, used=None, parent=None):
         self.f, self.path, self.module_funcs = f, path, module_funcs
+        self.helpers = helpers or {}      # name -> FunctionDef of the numeric helpers (inlined at their call sites)
+        self.used = used if used is not None else set()
+        self.parent = parent              # the translator a helper body is being inlined into (None for a translator)
         self.env = {}
         self.n = 0
         self.p0 = None
@@ -92,6 +112,8 @@ class Fn:
         return Unsupported(f'{where(node, self.path)}: {self.f.name}: {what}')
 
     def fresh(self, stem):
+        if self.parent is not None:       # one counter per generated definition
+            return self.parent.fresh(stem)
         self.n += 1
         return f'{stem}{self.n}'
 
@@ -218,7 +240,73 @@ class Fn:
         f = self.attr_call(e, 'elm')
         if f is not None:
             return self.elm_call(e, f)
+        if isinstance(e.func, ast.Name) and e.func.id in self.helpers:
+            pre, rets = self.inline(e)
+            if len(rets) != 1:
+                raise self.bad(e, f'{ast.unparse(e)} returns a tuple; only `N1, N2 = {e.func.id}(...)` is in the subset')
+            return pre, rets[0][0], rets[0][1], None
         raise self.bad(e, f'call {ast.unparse(e)}')
+
+    def inline(self, e):
+        """call of a numeric helper -> (pre, [(term, kind), ...]): the bindings of the arguments' evaluation followed by
+        the pure lets of the helper's locals, and the returned component(s)"""
+        name = e.func.id
+        h = self.helpers[name]
+        if self.parent is not None:
+            raise self.bad(e, f'helper {self.f.name} calls the helper {name}')
+        if name in self.env or name in (self.p0, self.wpar, self.wrespar) or \
+                (self.f.args.vararg and self.f.args.vararg.arg == name):
+            raise self.bad(e, f'the helper name {name} is shadowed by a local name')
+        params = [x.arg for x in h.args.args]
+        if e.keywords or len(e.args) != len(params) or any(isinstance(a, ast.Starred) for a in e.args):
+            raise self.bad(e, f'call {ast.unparse(e)}: {len(params)} positional arguments expected')
+        sub = Fn(h, self.path, self.module_funcs, helpers=self.helpers, used=self.used, parent=self)
+        pre = []
+        for p, a in zip(params, e.args):
+            pa, ta, ty, va = self.expr(a)
+            if ty not in ('real', 'int'):
+                raise self.bad(a, f'argument {ast.unparse(a)} of {name} is of kind {ty} (real / int only)')
+            pre += pa
+            sub.env[p] = Var(ta, ty, nonzero=bool(va is not None and va.nonzero))
+        self.used.add(name)
+        lets, rets = sub.helper_body(params)
+        return pre + lets, rets
+
+    def helper_body(self, params):
+        """body of a helper: NAME = expr ... return expr[, expr ...]"""
+        body = list(self.f.body)
+        if not body or not isinstance(body[-1], ast.Return) or body[-1].value is None:
+            raise self.bad(self.f, 'helper does not end in `return <expression>`')
+        lets = []
+        for st in body[:-1]:
+            if not isinstance(st, ast.Assign):
+                raise self.bad(st, f'helper statement {type(st).__name__} (only NAME = <expression> before the return)')
+            name = self.assign_target(st)
+            if name in params or name in self.helpers:
+                raise self.bad(st, f'helper assigns to its parameter / to a helper name {name}')
+            pre, t, ty, _ = self.expr(st.value)
+            if pre:
+                raise self.bad(st, 'helper expression with an effect')
+            if ty not in ('real', 'int'):
+                raise self.bad(st, f'helper local of kind {ty}')
+            if name in self.env and self.env[name].typ != ty:
+                raise self.bad(st, f'helper local {name} rebound to another kind')
+            x = self.fresh('h') + '_' + name
+            lets.append((x, t, 'let'))
+            self.env[name] = Var(x, ty)
+        rv = body[-1].value
+        comps = list(rv.elts) if isinstance(rv, ast.Tuple) else [rv]
+        if isinstance(rv, ast.Tuple) and len(comps) < 2:
+            raise self.bad(rv, 'helper returns a tuple of fewer than two components')
+        rets = []
+        for c in comps:
+            pre, t, ty, _ = self.expr(c)
+            if pre:
+                raise self.bad(c, 'helper expression with an effect')
+            if ty not in (('real', 'int', 'bool') if len(comps) == 1 else ('real', 'int')):
+                raise self.bad(c, f'helper returns a value of kind {ty}')
+            rets.append((t, ty))
+        return lets, rets
 
     def elm_call(self, e, f):
         if f == 'complex_value':
@@ -265,7 +353,8 @@ class Fn:
     # ---------------------------------------------------------------- statements
     @staticmethod
     def binds(pre, body, ind):
-        return ''.join(f'{ind}let* {x} := {t} in\n' for x, t in pre) + body
+        """pre entries: (x, t) monadic `let* x := t in`; (x, t, 'let') pure `let x := t in` (locals of an inlined helper)"""
+        return ''.join(f'{ind}let{"" if len(b) == 3 else "*"} {b[0]} := {b[1]} in\n' for b in pre) + body
 
     def branch(self, e, ind):
         """return-expression -> Coq text of type res (branch C)"""
@@ -281,10 +370,14 @@ class Fn:
             return f'{ind}mkbranch c {t}\n' if (i, j) == (0, 1) else f'{ind}branch_at c {i} {j} {t}\n'
         return f'{ind}branch_at_then c {i} {j} (\n' + self.binds(pre, f'{ind}  Ok {t})\n', ind + '  ')
 
-    def assign_target(self, st):
-        if not (len(st.targets) == 1 and isinstance(st.targets[0], ast.Name)):
-            raise self.bad(st, f'assignment target {ast.unparse(st)}')
-        name = st.targets[0].id
+    def assign_target(self, st, target=None):
+        if target is None:
+            if not (len(st.targets) == 1 and isinstance(st.targets[0], ast.Name)):
+                raise self.bad(st, f'assignment target {ast.unparse(st)}')
+            target = st.targets[0]
+        if not isinstance(target, ast.Name):
+            raise self.bad(st, f'assignment target {ast.unparse(target)}')
+        name = target.id
         if not IDENT.match(name) or name in RESERVED or name in self.module_funcs or name in (self.p0, self.wpar, self.wrespar):
             raise self.bad(st, f'assignment to the reserved / parameter / function name {name}')
         return name
@@ -299,6 +392,26 @@ class Fn:
             if st.value is None:
                 raise self.bad(st, 'bare return')
             return self.branch(st.value, ind)
+        if isinstance(st, ast.Assign) and len(st.targets) == 1 and isinstance(st.targets[0], ast.Tuple):
+            # --- N1, N2[, ...] = helper(...)
+            v = st.value
+            if not (isinstance(v, ast.Call) and isinstance(v.func, ast.Name) and v.func.id in self.helpers):
+                raise self.bad(st, f'tuple assignment from something other than a helper call: {ast.unparse(st)}')
+            names = [self.assign_target(st, t) for t in st.targets[0].elts]
+            if len(set(names)) != len(names):
+                raise self.bad(st, 'tuple assignment binds a name twice')
+            pre, rets = self.inline(v)
+            if len(rets) != len(names) or len(rets) < 2:
+                raise self.bad(st, f'{ast.unparse(v)} returns {len(rets)} value(s), {len(names)} targets')
+            for i, n_ in enumerate(names):
+                for t_, _ in rets[i + 1:]:
+                    if re.search(r'(?<![A-Za-z0-9_\'])v_' + re.escape(n_) + r'(?![A-Za-z0-9_\'])', t_):
+                        raise self.bad(st, f'tuple assignment: the target {n_} occurs in a later component')
+            out = self.binds(pre, '', ind)
+            for n_, (t_, ty_) in zip(names, rets):
+                out += f'{ind}let v_{n_} := {t_} in\n'
+                self.env[n_] = Var('v_' + n_, ty_)
+            return out + self.block(rest, ind)
         if isinstance(st, ast.Assign):
             name = self.assign_target(st)
             v = st.value
@@ -319,7 +432,7 @@ class Fn:
                 raise self.bad(st, f'assignment of a value of kind {ty}')
             coq = 'v_' + name
             if pre and pre[-1][0] == t:          # NAME = float(x.value['K']) / elm.load(...): bind the name directly
-                pre = pre[:-1] + [(coq, pre[-1][1])]
+                pre = pre[:-1] + [(coq,) + tuple(pre[-1][1:])]
                 out = self.binds(pre, '', ind)
             else:
                 out = self.binds(pre, f'{ind}let {coq} := {t} in\n', ind)
@@ -338,7 +451,7 @@ class Fn:
                 old = self.env[name]
                 p2, t2, ty2, _ = self.expr(st.body[0].value)
                 if p2:
-                    raise self.bad(st, f'conditional assignment whose right-hand side can raise: {ast.unparse(st.body[0])}')
+                    raise self.bad(st, f'conditional assignment whose right-hand side can raise / needs bindings: {ast.unparse(st.body[0])}')
                 if ty2 != old.typ or ty2 not in ('real', 'int', 'cplx', 'elem'):
                     raise self.bad(st, f'conditional assignment changes the kind of {name} ({old.typ} -> {ty2})')
                 self.env[name] = Var(old.coq, old.typ)
@@ -542,6 +655,29 @@ def generate(src):
     for f in funcs:
         if f.lineno > tline:
             raise Unsupported(f'{where(f, path)}: function {f.name} defined after the transformers table')
+    # numeric helpers: the module functions the table does not mention; inlined at their call sites (see the docstring)
+    in_table = {v.id for v in table.values}
+    helpers = {f.name: f for f in funcs if f.name not in in_table}
+    funcs = [f for f in funcs if f.name in in_table]
+    bound_otherwise = set()
+    for st in tree.body:
+        if isinstance(st, ast.Import):
+            bound_otherwise |= {al.asname or al.name.split('.')[0] for al in st.names}
+        elif isinstance(st, ast.ImportFrom):
+            bound_otherwise |= {al.asname or al.name for al in st.names}
+        elif isinstance(st, ast.Assign):
+            bound_otherwise |= {t.id for t in st.targets if isinstance(t, ast.Name)}
+        elif isinstance(st, ast.AnnAssign):
+            bound_otherwise.add(st.target.id)
+    for h in helpers.values():
+        a = h.args
+        hp = [x.arg for x in a.args]
+        if h.decorator_list or a.vararg or a.kwarg or a.kwonlyargs or a.posonlyargs or a.defaults or not hp:
+            raise Unsupported(f'{where(h, path)}: helper {h.name}: decorator / default / star / keyword-only parameters, or none')
+        if len(set(hp)) != len(hp) or any(not IDENT.match(n) or n in RESERVED or n in names for n in hp):
+            raise Unsupported(f'{where(h, path)}: helper {h.name}: parameter names {hp}')
+        if h.name in bound_otherwise:
+            raise Unsupported(f'{where(h, path)}: the helper name {h.name} is also bound by an import / assignment')
 
     L = ['(* GENERATED by tools/gen_transformers.py from Circuit/transformers.py — do not edit.',
          '   One definition g_<f> per translator function <f>, in the vocabulary of Model/CircuitPrims.v;',
@@ -590,10 +726,18 @@ def generate(src):
          'Notation open_circuit := (Model.Network.open_circuit (K:=C)).',
          '']
     calls = []
+    used = set()
     for f in funcs:
-        text, call = Fn(f, path, set(names)).translate()
+        text, call = Fn(f, path, set(names), helpers=helpers, used=used).translate()
         L.append(text)
         calls.append((f.name, call))
+    for h in helpers.values():
+        if h.name not in used:
+            raise Unsupported(f'{where(h, path)}: function {h.name} is neither in the transformers table nor called by a '
+                              f'translator of the subset: no meaning can be given to it')
+    if helpers:
+        L.append('(* helper functions inlined at their call sites (no definition of their own): '
+                 + ', '.join(f'{h.name}({ast.unparse(h.args)}) line {h.lineno}' for h in helpers.values()) + ' *)')
     L.append('(* the functions of the module by name, as called by transformers[type](component, w, w_resolution) *)')
     L.append('Definition g_functions : list (label * translator R) := [')
     L.append(';\n'.join(f'  ({S(n)}, fun c w wres => {call}) (* {n} *)' for n, call in calls))
